@@ -35,6 +35,8 @@ struct Setup {
     z: f32,
     pixel_perfect: bool,
     jit: bool,
+    /// interpreter with a 4-register budget instead of 255 (when not JIT)
+    small_vm: bool,
     pool: Option<usize>,
 }
 
@@ -94,9 +96,17 @@ fn random_mat3(rng: &mut Rng) -> Matrix3<f32> {
 
 fn check_scene(sc: &Scene, su: &Setup, rng: &mut Rng, st: &mut Stats) -> Option<(String, String, Value)> {
     let setup_json = json!({"width": su.w, "height": su.h, "tile_sizes": su.tiles, "world_to_model": format!("{:?}", su.mat),
-        "z": su.z, "pixel_perfect": su.pixel_perfect, "backend": if su.jit { "jit" } else { "vm" }, "threads": su.pool.map(|i| POOL_SIZES[i % POOL_SIZES.len()]),
+        "z": su.z, "pixel_perfect": su.pixel_perfect, "backend": if su.jit { "jit" } else if su.small_vm { "vm4" } else { "vm" }, "threads": su.pool.map(|i| POOL_SIZES[i % POOL_SIZES.len()]),
         "free_var_values_bits": sc.vars.iter().map(|(_, v)| v.to_bits()).collect::<Vec<_>>()});
-    let r = guarded(|| if su.jit { run_render::<JitFunction>(sc, su) } else { run_render::<VmFunction>(sc, su) });
+    let r = guarded(|| {
+        if su.jit {
+            run_render::<JitFunction>(sc, su)
+        } else if su.small_vm {
+            run_render::<fidget_core::vm::GenericVmFunction<4>>(sc, su)
+        } else {
+            run_render::<VmFunction>(sc, su)
+        }
+    });
     let img = match r {
         Ok(Ok(Some(i))) => i,
         Ok(Ok(None)) => return Some(("none_without_cancel".into(), "render returned None although the token was never cancelled".into(), setup_json)),
@@ -191,7 +201,7 @@ fn check_scene(sc: &Scene, su: &Setup, rng: &mut Rng, st: &mut Stats) -> Option<
     None
 }
 
-fn check_prog(p: &Prog, model: Option<usize>, seed: u64, tier: Tier, st: &mut Stats) -> Option<(String, String, Value)> {
+fn check_prog(p: &Prog, model: Option<usize>, seed: u64, tier: Tier, st: &mut Stats, pressure: bool) -> Option<(String, String, Value)> {
     let mut rng = Rng::new(seed);
     let rng = &mut rng;
     let built;
@@ -207,7 +217,14 @@ fn check_prog(p: &Prog, model: Option<usize>, seed: u64, tier: Tier, st: &mut St
     let max_side = if model.map(|m| models()[m].ctx.len() > 300).unwrap_or(false) { 20 } else { tier.pick(96, 128) };
     let w = 1 + rng.below(max_side) as u32;
     let h = if rng.chance(0.3) { w } else { 1 + rng.below(max_side) as u32 };
-    let (_, tiles) = random_tile_sizes(rng, 4, 128);
+    let (_, mut tiles) = random_tile_sizes(rng, 4, 128);
+    let (mut w, mut h) = (w, h);
+    if pressure {
+        // many small tiles, so that one worker sees many different traces
+        w = w.max(40);
+        h = h.max(40);
+        tiles = rng.pick(&[vec![8usize, 4], vec![16, 4], vec![8], vec![4], vec![16, 8, 4], vec![12, 4], vec![32, 8], vec![64, 8], vec![64, 16, 4]]).clone();
+    }
     let su = Setup {
         w,
         h,
@@ -215,11 +232,63 @@ fn check_prog(p: &Prog, model: Option<usize>, seed: u64, tier: Tier, st: &mut St
         mat: random_mat3(rng),
         z: if rng.chance(0.5) { 0.0 } else { rng.uniform(-0.5, 0.5) as f32 },
         pixel_perfect: rng.chance(0.35),
-        jit: rng.chance(0.5),
-        pool: if rng.chance(0.5) { None } else { Some(rng.below(POOL_SIZES.len())) },
+        jit: rng.chance(if pressure { 0.6 } else { 0.5 }),
+        small_vm: rng.chance(if pressure { 0.7 } else { 0.15 }),
+        pool: if rng.chance(if pressure { 0.7 } else { 0.5 }) { None } else { Some(rng.below(POOL_SIZES.len())) },
     };
     let _ = &sc.desc;
     check_scene(&sc, &su, rng, st)
+}
+
+/// High register pressure with per-tile decidable choices: `k` linear terms
+/// that all stay live across a unary op, `m` min/max clauses between pairs
+/// of them; every tile decides the clauses differently, and the tape
+/// simplified for a tile is re-allocated from scratch (with 12 or 4
+/// registers it may need more spills than its parent)
+pub fn pressure_scene(rng: &mut Rng, with_z: bool) -> Prog {
+    use crate::gen_::shape::B;
+    let mut b = B::new();
+    let (x, y, z) = (b.var(0), b.var(1), b.var(2));
+    let k = 8 + rng.below(18);
+    let m = 2 + rng.below(8);
+    let coeff = |rng: &mut Rng| (rng.range(-20, 20) as f32) / 8.0;
+    let mut terms = vec![];
+    for _ in 0..k {
+        let ax = b.mulc(x, coeff(rng));
+        let by = b.mulc(y, coeff(rng));
+        let mut s = b.add(ax, by);
+        if with_z {
+            let cz = b.mulc(z, coeff(rng));
+            s = b.add(s, cz);
+        }
+        terms.push(b.subc(s, coeff(rng)));
+    }
+    let mut choices = vec![];
+    for _ in 0..m {
+        let (p, q) = (terms[rng.below(k)], terms[rng.below(k)]);
+        choices.push(if rng.chance(0.5) { b.min(p, q) } else { b.max(p, q) });
+    }
+    let mut sum = b.c(0.0);
+    for (i, t) in terms.iter().enumerate() {
+        let w = b.mulc(*t, (i % 5) as f32 + 1.0);
+        sum = b.add(sum, w);
+    }
+    for c in &choices {
+        sum = b.add(sum, *c);
+    }
+    let mut out = match rng.below(3) {
+        0 => b.abs(sum),
+        1 => b.sq(sum),
+        _ => b.un(Un::Neg, sum),
+    };
+    for c in choices.iter().rev() {
+        let h = b.mulc(*c, 0.5);
+        out = b.sub(out, h);
+    }
+    for t in terms.iter().rev() {
+        out = b.sub(out, *t);
+    }
+    Prog { nodes: b.nodes, n_vars: 3, outputs: vec![out] }
 }
 
 impl Prop for C06 {
@@ -233,9 +302,14 @@ impl Prop for C06 {
         tier.pick(100, 1200)
     }
     fn run_case(&self, case: u64, rng: &mut Rng, st: &mut Stats, tier: Tier) {
+        let mut wide_live = false;
         let kind = rng.below(20);
         let n_models = models().len();
-        let (p, model) = if kind < 12 {
+        let (p, model) = if case % 12 == 7 {
+            wide_live = true;
+            st.inc("scenes_register_pressure_with_choices");
+            (pressure_scene(rng, false), None)
+        } else if kind < 12 {
             let mut cfg = ShapeCfg::render();
             cfg.flat = rng.chance(0.3);
             cfg.free_vars = if rng.chance(0.2) { 1 + rng.below(2) } else { 0 };
@@ -244,12 +318,16 @@ impl Prop for C06 {
         } else if kind < 18 || n_models == 0 {
             // random expression (no rand/mix: their value hashes NaN payloads)
             let mut cfg = GenCfg::random(rng, 40);
-            if rng.chance(0.35) {
+            if rng.chance(0.6) {
                 // many values kept live across mod / libm calls (register
-                // save/restore paths of the JIT interval evaluator)
-                cfg = GenCfg::new(40 + rng.below(50));
+                // save/restore paths of the JIT interval evaluator; tapes
+                // whose simplification spills more than the parent did)
+                wide_live = true;
+                cfg = GenCfg::new(40 + rng.below(80));
                 cfg.topo = prog::Topo::Crossing;
-                cfg.profile = prog::Profile::Libm;
+                // (half of them choice-heavy: simplification then rewrites
+                // the tape per tile, under register pressure)
+                cfg.profile = if rng.chance(0.5) { prog::Profile::Choice } else { prog::Profile::Libm };
                 cfg.const_p = 0.2;
             }
             cfg.consts = Consts::Tame;
@@ -269,17 +347,17 @@ impl Prop for C06 {
         st.distinct(if let Some(m) = model { m as u64 ^ rng.next_u64() } else { p.hash() });
         st.sample(|| if let Some(m) = model { json!({"model": models()[m].name}) } else { json!({"program": p.to_json()}) });
         let seed = rng.next_u64();
-        if let Some((sig, msg, detail)) = check_prog(&p, model, seed, tier, st) {
+        if let Some((sig, msg, detail)) = check_prog(&p, model, seed, tier, st, wide_live) {
             let mut pj = if let Some(m) = model { json!({"model": models()[m].name}) } else { p.to_json() };
             if model.is_none() {
                 let mut scratch = Stats::default();
                 let sig0 = sig.clone();
                 let small = crate::gen_::shrink::shrink(
                     &p,
-                    &mut |q: &Prog| matches!(guarded(|| check_prog(q, None, seed, tier, &mut scratch)), Ok(Some((s, _, _))) if s == sig0),
+                    &mut |q: &Prog| matches!(guarded(|| check_prog(q, None, seed, tier, &mut scratch, wide_live)), Ok(Some((s, _, _))) if s == sig0),
                     150,
                 );
-                if let Some((s2, m2, d2)) = check_prog(&small, None, seed, tier, &mut scratch) {
+                if let Some((s2, m2, d2)) = check_prog(&small, None, seed, tier, &mut scratch, wide_live) {
                     if s2 == sig {
                         pj = small.to_json();
                         st.violation(case, s2, m2, json!({"detail": d2, "shape": pj, "check_seed": seed.to_string()}));
@@ -378,6 +456,7 @@ impl Prop for C06 {
             z: setup["z"].as_f64().unwrap_or(0.0) as f32,
             pixel_perfect: setup["pixel_perfect"].as_bool().unwrap_or(false),
             jit: setup["backend"].as_str() == Some("jit"),
+            small_vm: setup["backend"].as_str() == Some("vm4"),
             pool: setup["threads"].as_u64().and_then(|t| POOL_SIZES.iter().position(|s| *s as u64 == t)),
         };
         let built;
